@@ -450,12 +450,13 @@ class Corr:
         for t in range(self.T):
             for i in range(N):
                 for j in range(N):
-                    if periodic:
-                        new_content[t][i, j] = self.content[wrap(t + i + j)][0]
-                    elif (t + i + j) >= self.T:
+                    if new_content[t] is None:
+                        continue
+                    x0 = wrap(t + i + j) if periodic else t + i + j
+                    if x0 >= self.T or self.content[x0] is None:
                         new_content[t] = None
                     else:
-                        new_content[t][i, j] = self.content[t + i + j][0]
+                        new_content[t][i, j] = self.content[x0][0]
 
         return Corr(new_content)
 
